@@ -21,6 +21,7 @@ import (
 	"github.com/milvus-io/milvus-proto/go-api/v2/msgpb"
 	"github.com/milvus-io/milvus-proto/go-api/v2/schemapb"
 	"github.com/milvus-io/milvus/pkg/mq/msgstream"
+	"github.com/milvus-io/milvus/pkg/util/funcutil"
 	"github.com/sasha-s/go-deadlock"
 
 	"github.com/zilliztech/milvus-cdc/core/api"
@@ -31,14 +32,22 @@ import (
 
 type c04Target struct {
 	api.DefaultTargetAPI
-	shards int
-	parts  map[string]int64
+	shards    int
+	parts     map[string]int64
+	vchannels []string // when set: the downstream vchannels as listed by the target
 }
 
 func (t *c04Target) info(name, db string) *model.CollectionInfo {
 	ci := &model.CollectionInfo{DatabaseName: db, CollectionID: 900, CollectionName: name, Partitions: map[string]int64{}}
 	for k, v := range t.parts {
 		ci.Partitions[k] = v
+	}
+	if t.vchannels != nil {
+		for _, v := range t.vchannels {
+			ci.VChannels = append(ci.VChannels, v)
+			ci.PChannels = append(ci.PChannels, funcutil.ToPhysicalChannel(v))
+		}
+		return ci
 	}
 	for s := 0; s < t.shards; s++ {
 		p := "tgt-dml_" + string(rune('0'+s))
@@ -81,6 +90,7 @@ type c04World struct {
 	meta     *c04Meta
 	handlers map[string]*rHandlerEnv // by source pchannel
 	shards   int
+	pairs    [][4]string // (source vchannel, target vchannel, source pchannel, target pchannel) of every started channel
 	info     *pb.CollectionInfo
 	db       *model.DatabaseInfo
 	ctx      context.Context
@@ -126,6 +136,7 @@ func c04StartReadChannel(r *replicateChannelManager, ctx context.Context, source
 	r.channelLock.Lock()
 	defer r.channelLock.Unlock()
 	w := c04W
+	w.pairs = append(w.pairs, [4]string{sourceInfo.VChannel, targetInfo.VChannel, sourceInfo.PChannel, targetInfo.PChannel})
 	key := sourceInfo.PChannel
 	env, ok := w.handlers[key]
 	if !ok {
@@ -136,16 +147,18 @@ func c04StartReadChannel(r *replicateChannelManager, ctx context.Context, source
 		env.h.targetClient = r.targetClient
 		env.h.sourceSeekPosition = sourceInfo.SeekPosition
 		w.handlers[key] = env
-		rInitTS(targetInfo.PChannel, 18446744073709551615)
+		env.h.startReadChannel() // real: channel clock + the handler's message loop goroutine
+		ti, _ := GetTSManager().channelTS2.Get(FormatChanKey(rRID, targetInfo.PChannel))
+		ti.lts = 0 // a fresh process (natively the clock table is process-wide)
+		for len(ti.targetMsgChan) > 0 {
+			<-ti.targetMsgChan
+		}
 	}
 	r.channelHandlerMap[key] = env.h
 	r.updateSourcePChannelMap(sourceInfo.CollectionID, sourceInfo.PChannel, key)
-	env.h.recordLock.Lock()
-	env.h.collectionRecords[sourceInfo.CollectionID] = targetInfo
-	env.h.collectionNames[targetInfo.CollectionName] = &model.HandlerCollectionInfo{CollectionID: sourceInfo.CollectionID, PChannel: sourceInfo.PChannel}
-	closed := 0
-	env.h.closeStreamFuncs[sourceInfo.CollectionID] = rNopCloser{&closed}
-	env.h.recordLock.Unlock()
+	// the real registration of the collection on the handler: records, stream, reader goroutine and
+	// the synthetic drop message when the collection is found dropped
+	env.h.AddCollection(util.GetTaskIDFromCtx(ctx), sourceInfo, targetInfo)
 	return nil, nil
 }
 
@@ -163,13 +176,9 @@ func (w *c04World) deliver(s int, ts uint64, m msgstream.TsMsg) {
 
 // drain lets the handlers process the packs the real code generated for them (synthetic drops)
 func (w *c04World) drain() {
-	vQuiesce()
-	for _, env := range w.handlers {
-		for len(env.h.generatePackChan) > 0 {
-			env.h.innerHandleReplicateMsg(false, <-env.h.generatePackChan)
-		}
+	for i := 0; i < 4; i++ {
+		vQuiesce() // the handlers' own message loops consume the generated packs
 	}
-	vQuiesce()
 }
 
 func (w *c04World) events(kind api.ReplicateAPIEventType) []*api.ReplicateAPIEvent {
@@ -359,3 +368,78 @@ func VerifC04_Stop() {
 	vAssert(len(w.events(api.ReplicateDropCollection)) == 0 && len(w.events(api.ReplicateDropPartition)) == 0, "C04.stop-produces-no-drop-request")
 	vReach("end")
 }
+
+// VerifC04_DropNotDeliveredBeforeStop: every shard has read the drop-collection message but
+// the request could not be handed over yet (the event queue shared by the target's tasks is
+// full) when the task is stopped: no drop request is produced by the stop; when the task is
+// started again on the same manager the collection (now dropped upstream) is taken up again
+// and the drop is delivered exactly once.
+func VerifC04_DropNotDeliveredBeforeStop() {
+	S := vParam("S", 2)
+	w := c04NewWorld(S)
+	vAssert(w.mgr.StartReadCollection(w.ctx, w.db, w.info, nil, nil) == nil, "C04.start-ok")
+	vQuiesce()
+	for len(w.mgr.apiEventChan) < cap(w.mgr.apiEventChan) {
+		w.mgr.apiEventChan <- &api.ReplicateAPIEvent{EventType: api.ReplicateCreatePartition, TaskID: "other-task"}
+	}
+	for s := 0; s < S; s++ {
+		w.deliver(s, uint64(100+s), rDropCollection(100, uint64(100+s), rPos(w.vch(s), "drop", uint64(100+s))))
+	}
+	vQuiesce()
+	vAssert(w.mgr.StopReadCollection(w.ctx, w.info) == nil, "C04.stop-ok")
+	vQuiesce()
+	// the server works through the queue: no drop request is in it
+	for len(w.mgr.apiEventChan) > 0 {
+		ev := <-w.mgr.apiEventChan
+		vAssert(ev.EventType != api.ReplicateDropCollection, "C04.stop-produces-no-drop-request")
+	}
+	// restart: the catalog now shows the collection as dropped, the downstream still has it
+	w.info.State = pb.CollectionState_CollectionDropped
+	seek := vU64("seek.ts")
+	vAssume(vAnd(seek >= 200, seek < c03Lim))
+	var seeks []*msgpb.MsgPosition
+	for s := 0; s < S; s++ {
+		seeks = append(seeks, rPos("src-dml_"+string(rune('0'+s)), "seek", seek))
+		w.shard(s).h.sourceSeekPosition = rPos("src-dml_"+string(rune('0'+s)), "seek", seek)
+	}
+	vAssert(w.mgr.StartReadCollection(w.ctx, w.db, w.info, seeks, nil) == nil, "C04.restart-ok")
+	w.drain()
+	evs := w.events(api.ReplicateDropCollection)
+	vAssert(len(evs) == 1, "C04.drop-read-before-the-stop-is-delivered-once-after-restart")
+	vReach("end")
+}
+
+// VerifC02_StartReadPairing (a C02 entry living next to the world it needs): the real
+// StartReadCollection pairs the collection's source vchannels with the downstream
+// vchannels one-to-one, i-th smallest with i-th smallest, and derives the physical
+// channels from the paired vchannels - also when one physical channel name is a prefix of
+// another (dml_1 / dml_12) and whatever the order in which the catalog lists them.
+func VerifC02_StartReadPairing() {
+	w := c04NewWorld(2)
+	src := []string{"src-dml_1_100v0", "src-dml_12_100v1"}
+	tgt := []string{"tgt-dml_1_900v0", "tgt-dml_12_900v1"}
+	if vBool("source.listedInReverse") {
+		src[0], src[1] = src[1], src[0]
+	}
+	if vBool("target.listedInReverse") {
+		tgt[0], tgt[1] = tgt[1], tgt[0]
+	}
+	w.info.VirtualChannelNames = src
+	w.info.PhysicalChannelNames = []string{funcutilToP(src[0]), funcutilToP(src[1])}
+	w.target.vchannels = tgt
+	vAssert(w.mgr.StartReadCollection(w.ctx, w.db, w.info, nil, nil) == nil, "C02.start-ok")
+	vQuiesce()
+	vAssert(len(w.pairs) == 2, "C02.every-shard-is-started-once")
+	wantS := []string{"src-dml_12_100v1", "src-dml_1_100v0"} // sorted ('2' < '_')
+	wantT := []string{"tgt-dml_12_900v1", "tgt-dml_1_900v0"}
+	for i, p := range w.pairs {
+		if i >= 2 {
+			break
+		}
+		vAssert(p[0] == wantS[i] && p[1] == wantT[i], "C02.i-th-smallest-source-vchannel-is-paired-with-i-th-smallest-target-vchannel")
+		vAssert(p[2] == funcutilToP(p[0]) && p[3] == funcutilToP(p[1]), "C02.physical-channels-are-those-of-the-paired-vchannels")
+	}
+	vReach("end")
+}
+
+func funcutilToP(v string) string { return funcutil.ToPhysicalChannel(v) }
